@@ -120,6 +120,34 @@ Definition stall_model (v : tval) : fsh * list fth :=
 Definition check_stall (v : tval) : bool :=
   Bool.eqb (forallb (fun t => negb (f_close_pending t)) (snd (stall_model v))) (vbool (vnth 3 v)).
 
+(* ---- kind 7: B queued on the lock behind A while Close runs ---- *)
+(* [7; lockfirst; closable; obs_b_err; obs_b_called] *)
+Definition queue_model (v : tval) : qsh * list qpc :=
+  run _ _ (qstep (vbool (vnth 1 v)) 1) (qinit, [QStart; QStart; QClose]) [0; 0; 1; 1; 2; 2; 0; 0; 1; 1; 1; 1].
+Definition check_queue (v : tval) : bool :=
+  let s := queue_model v in
+  Bool.eqb (0 <? q_late (fst s)) (vbool (vnth 4 v))
+  && (vbool (vnth 2 v)   (* a closable reader fails the late call: the result is an error either way *)
+      || Bool.eqb (match nth_error (snd s) 1 with Some (QRet false) => true | _ => false end) (vbool (vnth 3 v))).
+
+(* ---- kind 8: composite clean-up body with failing sub-components ---- *)
+(* [8; early; subs [[id; fail]]; obs counts (aligned with subs)] *)
+Definition check_body (v : tval) : bool :=
+  let subs := map (fun x => {| s_id := vnat (vnth 0 x); s_fail := vbool (vnth 1 x) |}) (vl (vnth 2 v)) in
+  let ran := fst (run_body (vbool (vnth 1 v)) subs) in
+  nat_list_eqb (map (fun s => count_occ Nat.eq_dec ran (s_id s)) subs) (map vnat (vl (vnth 3 v))).
+
+(* ---- kind 9: attach / close history of one side of a bridge, ended by the lifecycle's Close ---- *)
+(* [9; fastpath; events (0 = close, 1 = attach); obs closes per attached connection, in attach order] *)
+Fixpoint attach_threads (evs : list bool) (next : nat) : list bpc :=
+  match evs with [] => [] | true :: r => BAttach next :: attach_threads r (S next) | false :: r => BClose :: attach_threads r next end.
+Definition attach_model (v : tval) : bsh * list bpc :=
+  let evs := map vbool (vl (vnth 2 v)) ++ [false] in
+  run _ _ (bstep (vbool (vnth 1 v))) (binit, attach_threads evs 0) (flat_map (fun i => [i; i; i]) (seq 0 (length evs))).
+Definition check_attach (v : tval) : bool :=
+  let s := attach_model v in
+  nat_list_eqb (map (fun c => cnt c (b_closedlog (fst s))) (seq 0 (length (b_attached (fst s))))) (map vnat (vl (vnth 3 v))).
+
 Definition check (v : tval) : bool :=
   match vnat (vnth 0 v) with
   | 0 => check_dispose v
@@ -129,6 +157,9 @@ Definition check (v : tval) : bool :=
   | 4 => check_stream v
   | 5 => check_life v
   | 6 => check_stall v
+  | 7 => check_queue v
+  | 8 => check_body v
+  | 9 => check_attach v
   | _ => false
   end.
 
@@ -147,5 +178,7 @@ Definition predict (v : tval) : tval :=
   | 4 => let s := stream_model v in vnats [op_result (nth_error (snd s) 0); op_result (nth_error (snd s) 2); p_panics (fst s)]
   | 5 => vnats (life_obs (life_model v))
   | 6 => vnats [if forallb (fun t => negb (f_close_pending t)) (snd (stall_model v)) then 1 else 0]
+  | 7 => let s := queue_model v in vnats [q_late (fst s); match nth_error (snd s) 1 with Some (QRet false) => 1 | _ => 0 end]
+  | 9 => let s := attach_model v in vnats (map (fun c => cnt c (b_closedlog (fst s))) (seq 0 (length (b_attached (fst s)))))
   | _ => VL []
   end.
